@@ -334,6 +334,7 @@ type nnpScript struct {
 	IdleMs     int    `json:"idle_ms"` // number of idle runtime threads to create before the load (move-old) or 0
 	LoaderMain bool   `json:"loader_main"`
 	WireIdle   int    `json:"wire_idle"`  // wire this many goroutines to threads first, so that no idle thread is left (move-new)
+	PreNNP     string `json:"pre_nnp"`    // "leader": before the load the thread-group leader (not the loader's thread) sets no_new_privs for itself
 	DenyPrctl  bool   `json:"deny_prctl"` // the process already runs under a filter that answers EPERM to prctl(2) (as container profiles do)
 }
 
@@ -345,6 +346,7 @@ type nnpReport struct {
 	SeamTid          int         `json:"seam_tid"`
 	Moved            bool        `json:"moved"`
 	MoveImpossible   bool        `json:"migration_impossible"`
+	PreNNPDone       bool        `json:"pre_nnp_done"`
 	ControlMoved     bool        `json:"control_moved"` // the same manoeuvre on an unpinned goroutine in this process
 	TargetPreexisted bool        `json:"target_thread_preexisted"`
 	NNPAtSeam        int         `json:"nnp_at_seam"`
@@ -405,6 +407,12 @@ func childNNP(args []string) {
 			b, _ := json.Marshal(rep)
 			os.Stdout.Write(append(b, '\n'))
 			os.Exit(0)
+		}
+	}
+	if sc.PreNNP == "leader" && gettid() == os.Getpid() {
+		// the main goroutine is wired to the thread-group leader (VERIF_LOCK_MAIN); the bit is per thread
+		if _, _, e := syscall.RawSyscall6(syscall.SYS_PRCTL, prSetNoNewPrivs, 1, 0, 0, 0, 0); e == 0 {
+			rep.PreNNPDone = true
 		}
 	}
 	// optional pool of idle runtime threads that exist before the prctl
